@@ -13,8 +13,8 @@ TAILS = {
     3: ["'a' '", "x"],
     4: ['"a', '\\b '],
     6: ['\tx', '\nx\n'],
-    7: ['éé àz', 'é'],
-    8: ['€!', '\U00010348 !\n'],
+    7: ['éé àz', 'é', 'éàz é'],
+    8: ['€!', '\U00010348 !\n', '!€!\U00010348€'],
     9: ['if', 'ifx '],
     11: ['func f()', 'fo for x1'],
 }
@@ -23,7 +23,7 @@ TAILS = {
 def run(tier, rep):
     thorough = tier == 'thorough'
     corp = emit.specs('quick')
-    chosen = sorted(TAILS) if thorough else [0, 1, 7, 9]
+    chosen = sorted(TAILS) if thorough else [0, 1, 7, 8, 9]
     pads = [0, 1, 4090, 4093, 4094, 4095, 4096, 4097, 8190, 8191, 8192] if thorough else [0, 4094, 4095, 4096]
     n = 3 if thorough else 2
     with Scratch() as sc:
